@@ -187,8 +187,8 @@ def check_greedy(bag, old_costs, new_costs, rng, pool_modes=()):
     want = sorted(old_costs + new_costs)[:P] if len(new) else None
     got = [a.cost for a in o._population]
     if len(new) == 0:
-        if got != list(old_costs):
-            viol("_extend_and_trim_population", "empty-extension-is-noop", f"population became {got}")
+        if got != list(old_costs) and got != sorted(old_costs)[:P]:
+            viol("_extend_and_trim_population", "empty-extension", f"population became {got}")
     elif got != want:
         viol("_extend_and_trim_population", "n-cheapest-ascending", f"population_size={P}: {got}, expected {want}")
     elif any(not any(a is b for b in old + new) for a in o._population):
